@@ -7,10 +7,11 @@ the Float instance of the model is run on the same (P, rainfall, maxgapsec, hsta
 varvalues): same error guard or same missing pattern and values within 4 ulp / 1e-12 (bit-equal in
 practice, counted); the exact-rational instance bounds the rounding on small cases; hvalues[nvalh-1] (the
 final period) is missing in the model: untouched or NaN in the code agrees. (b) dutils.var2h is called on Series whose DatetimeIndex holds the same wall-clock seconds
-in units s/ms/us/ns, naive or time-zone aware; the call into c_hydrodiy_data.var2h is intercepted (arguments
-recorded, arrays padded with a sentinel so that a start scan running off the end stays inside the
-allocation) and origin, size, epoch seconds, returned values and returned index (the model's labels: wrapperSeries /
-seriesIdx) are compared with the model's wrapper. (c) c_hydrodiy_data.var2h (the Cython entry point) is called directly on
+in units s/ms/us/ns, naive or time-zone aware; the returned values and the returned index (origin, size, the model's
+labels: wrapperSeries / seriesIdx) are compared with the model's wrapper. Nothing is taken from the wrapper's call into
+c_hydrodiy_data.var2h (it only passes through a proxy that pads the arrays with a sentinel so that a start scan running
+off the end stays inside the allocation): how, and whether, the wrapper calls the kernel is not observed. The model's
+conversion of the stored index (wallSec) is compared with the wall-clock seconds the index was built from. (c) c_hydrodiy_data.var2h (the Cython entry point) is called directly on
 the caller's own arrays with a stale output buffer: the buffer afterwards and the return code are compared with the model's
 pyxVar2h (cells the kernel must not write keep their stale value), whole call histories with the model's run. (d) for
 every kernel case the driver runs the control skeleton kernelMiss on the Float marks, the Float kernel and the
@@ -402,8 +403,13 @@ def body(ctx):
              "long_prescreened": 0, "long_model_slices": 0, "labels_compared": 0, "pyx_calls": 0, "pyx_rejections": 0,
              "pyx_histories": 0, "display_cases": 0, "missing_patterns_compared": 0}
 
-    # ---- the Cython boundary: record the arguments, pad the arrays with a sentinel
+    # ---- the Cython boundary: the arrays are padded with a sentinel so that a start scan running off the end stays
+    # inside the allocation. Nothing the oracle or the correspondence uses is taken from this call: HOW (and whether) the
+    # wrapper calls the kernel - absolute or relative seconds, keywords, a memo that skips the call - is its own business;
+    # the wrapper is judged on the series it returns.
     class Proxy:
+        NAMES = ["maxgapsec", "hstartsec", "nbsec_per_period", "rainfall", "display", "varsec", "varvalues", "hvalues"]
+
         def __init__(self, real):
             self._real = real
             self.calls = []
@@ -411,18 +417,28 @@ def body(ctx):
         def __getattr__(self, k):
             return getattr(self._real, k)
 
-        def var2h(self, maxgapsec, hstartsec, P, rainfall, display, varsec, varvalues, hvalues):
-            n = len(varsec)
-            ps = np.empty(n + 1, dtype=np.int64)
-            ps[:n] = varsec
-            ps[n] = INT64_MAX
-            pv = np.empty(n + 1, dtype=np.float64)
-            pv[:n] = varvalues
-            pv[n] = np.nan
-            self.calls.append({"maxgapsec": int(maxgapsec), "hstartsec": int(hstartsec), "P": int(P),
-                               "rainfall": int(rainfall), "varsec": [int(x) for x in varsec],
-                               "nvalh": int(len(hvalues)), "varsec_dtype": str(varsec.dtype)})
-            return self._real.var2h(maxgapsec, hstartsec, P, rainfall, display, ps[:n], pv[:n], hvalues)
+        def var2h(self, *args, **kw):
+            self.calls.append(1)
+            try:
+                b = dict(zip(self.NAMES, args))
+                b.update(kw)
+                varsec, varvalues = b["varsec"], b["varvalues"]
+                if not (isinstance(varsec, np.ndarray) and isinstance(varvalues, np.ndarray) and varsec.dtype == np.int64
+                        and varvalues.dtype == np.float64 and varsec.ndim == 1 and varvalues.ndim == 1
+                        and len(varsec) == len(varvalues) and set(b) == set(self.NAMES)):
+                    raise TypeError
+                n = len(varsec)
+                ps = np.empty(n + 1, dtype=np.int64)
+                ps[:n] = varsec
+                ps[n] = INT64_MAX
+                pv = np.empty(n + 1, dtype=np.float64)
+                pv[:n] = varvalues
+                pv[n] = np.nan
+                b["varsec"], b["varvalues"] = ps[:n], pv[:n]
+                call = [b[k] for k in self.NAMES]
+            except Exception:
+                return self._real.var2h(*args, **kw)        # a call we do not understand goes through untouched
+            return self._real.var2h(*call)
 
     proxy = Proxy(dutils.c_hydrodiy_data)
     dutils.c_hydrodiy_data = proxy
@@ -614,16 +630,16 @@ def body(ctx):
         except Exception as exc:      # whatever class the wrapper raises (ValueError, RuntimeError, TypeError, ...)
             msg = str(exc)
             m = re.search(r"\b(1[0-9]{5})\b", msg)
-            if m and proxy.calls:
-                name = guards.get(int(m.group(1)), "code" + m.group(1))
-            elif "nbsec_per_period" in msg:
+            if "nbsec_per_period" in msg:
                 name = "badPeriod"
             elif "maxgapsec" in msg:
                 name = "badMaxgap"
+            elif m:
+                name = guards.get(int(m.group(1)), "code" + m.group(1))
             else:
                 name = type(exc).__name__ + ":" + msg[:60]
-            return ("err", name), (proxy.calls[-1] if proxy.calls else None)
-        rec = proxy.calls[-1] if proxy.calls else None
+            return ("err", name), None
+        rec = None          # nothing is taken from the kernel call
         try:
             ridx = r.index
             if getattr(ridx, "tz", None) is not None:
@@ -659,10 +675,11 @@ def body(ctx):
                     offs = utc_offsets(raw, sidx.unit, tz)
                     reqs.append(f"wrapperidx {P} {rain} {int(maxgap)} {C.f2h(EPS)} {sidx.unit} {C.ilist(raw)} {C.ilist(offs)} "
                                 f"{C.flist(vals)}")
-                    impl_i = ("err " + res[1]) if res[0] == "err" else (
-                        rec["hstartsec"] if rec else (res[2][0] if res[2] else None), res[1])
+                    impl_i = ("err " + res[1]) if res[0] == "err" else ((res[2][0] if res[2] else None), res[1])
+                    # the model's conversion of the stored index (wallSec) must give the wall-clock seconds the index was
+                    # built from; what the wrapper makes of the index is judged through the values it returns
                     pend.append(("wrapperidx", impl_i, {**vcase, "_wellformed": True, "_open": open_idx,
-                                                        "_varsec": rec["varsec"] if rec else None,
+                                                        "_varsec": [int(t) for t in secs],
                                                         "_labels": (res[2] if res[0] == "ok" and res[3] else None)}, scale))
                     stats["stored_index_cases"] += 1
                 except Exception as exc:       # an index pandas cannot describe this way: nothing to compare
@@ -678,26 +695,14 @@ def body(ctx):
                 else:
                     # the periods are read off the RETURNED index (the oracle must not depend on the kernel having
                     # been called: a cached or recycled answer is judged against the current series all the same)
-                    hstart = rec["hstartsec"] if rec else (res[2][0] if res[2] else None)
+                    hstart = res[2][0] if res[2] else None
                     impl = (hstart, res[1])
-                    if wellformed and rec is not None:
-                        if rec["varsec"] != secs:
-                            ctx.finding(f"var2h/epoch_seconds_wrong/unit={unit}",
-                                        "the seconds passed to the kernel are not the wall-clock epoch seconds of the index",
-                                        {**vcase, "passed": rec["varsec"][:5]})
-                        if len(res[1]) != rec["nvalh"] or (res[2] and res[2][0] != rec["hstartsec"]):
-                            ctx.finding("var2h/index_not_periods", "the returned series is not labelled from the origin "
-                                        "handed to the kernel / has another length", {**vcase, "index": res[2][:5],
-                                                                                       "origin": rec["hstartsec"]})
                     if wellformed and res[1]:
                         h0 = res[2][0]
                         want_idx = [h0 + i * P for i in range(len(res[1]))]
                         if res[2] != want_idx or not res[3]:
                             ctx.finding("var2h/index_not_periods", "the returned index is not origin + i*period",
                                         {**vcase, "index": res[2][:5], "origin": h0})
-                        if not secs[0] <= h0:
-                            ctx.finding("var2h/origin_before_data", "the first returned period starts before the first "
-                                        "observation", {**vcase, "origin": h0})
                         ex = Exact(secs, vals, P, rain, maxgap)
                         outs = res[1]
                         nontrivial = check_periods(ctx, "var2h", vcase, ex, h0, outs, tag,
@@ -777,13 +782,9 @@ def body(ctx):
             elif res[1]:
                 h0 = res[2][0]
                 if res[2][-1] != h0 + (len(res[1]) - 1) * P or res[2][len(res[1]) // 2] != h0 + (len(res[1]) // 2) * P \
-                        or not res[3] or not secs[0] <= h0:
+                        or not res[3]:
                     ctx.finding("var2h/index_not_periods", "the returned index is not origin + i*period",
                                 {**case, "index": res[2][:3], "origin": h0})
-                if rec is not None and rec["varsec"] != secs:
-                    ctx.finding(f"var2h/epoch_seconds_wrong/unit={case.get('unit', 'us')}",
-                                "the seconds passed to the kernel are not the wall-clock epoch seconds of the index",
-                                {**case, "passed": rec["varsec"][:5]})
                 sources.append(("var2h", h0, np.array(res[1], dtype=np.float64)))
         nontrivial = False
         sa = np.array(secs, dtype=I64)
@@ -1615,7 +1616,8 @@ str(impl) if kind == "kmiss" else
     ctx.assumptions += [
         "time stamps are whole seconds (the property's quantifier); sub-second stamps are truncated by the wrapper and not examined",
         "pandas DatetimeIndex construction, tz_localize, as_unit, date_range and numpy datetime64 casts are external: "
-        "the epoch seconds of stamp i are a parameter of the model, checked here by comparing the seconds handed to the kernel",
+        "the epoch seconds of stamp i are a parameter of the model; the model's own conversion (wallSec) is compared with the "
+        "wall-clock seconds the index was built from, the wrapper's conversion is judged through the values it returns",
         "time-zone aware indexes: fixed-offset zones everywhere, DST zones only on series that lie within June-August "
         "(no transition); wall-clock time is what the wrapper integrates over",
         "values are finite or NaN (no +/-inf); |values| <= 1e4; spans <= 3000 half-hours",
@@ -1628,5 +1630,5 @@ def main(tier, replay=None):
     return C.run_check(PID, tier, body, needs_native=True, replay=replay,
                        trusted=["pandas DatetimeIndex storage (asi8, unit), zone offsets (zoneinfo), date_range, numpy datetime64 "
                                 "casts: external — raw count and UTC offset of stamp i are parameters of the model (wrapperIdx), "
-                                "its wall-clock seconds are compared with those the real wrapper hands to the kernel",
+                                "its wall-clock seconds are compared with those the index was built from (nothing is read from the wrapper's kernel call)",
                                 "gcc -O1 -ffp-contract=off build of c_var2h.c; ctypes call convention"])
